@@ -89,6 +89,7 @@ type muxScen struct {
 	name     string
 	sessions [][]int // request sizes per session
 	bound    int
+	delay    bool // delay bounding (every non-default scheduling choice costs)
 }
 
 type muxExec struct {
@@ -184,20 +185,28 @@ func muxScenarios(c *lib.Ctx) []*sched.Scenario {
 	add := func(name string, bound int, sessions ...[]int) {
 		scs = append(scs, &muxScen{name: "mux/" + name, sessions: sessions, bound: bound})
 	}
-	qb := lib.Pick(c, 2, 3)
-	add("2x1-small", qb, []int{1}, []int{2})
-	add("2x1-boundary", qb, []int{B - mux.HeaderSize - 1}, []int{B - mux.HeaderSize})
-	add("2x1-over-buffer", qb, []int{B + 1}, []int{2*B + 5})
+	add("2x1-small", lib.Pick(c, 2, 3), []int{1}, []int{2})
+	add("2x1-boundary", lib.Pick(c, 1, 3), []int{B - mux.HeaderSize - 1}, []int{B - mux.HeaderSize})
+	add("2x1-over-buffer", lib.Pick(c, 1, 3), []int{B + 1}, []int{2*B + 5})
 	add("2x2-mixed", lib.Pick(c, 1, 2), []int{3, B + 1}, []int{B, 2})
-	add("3x1-mixed", lib.Pick(c, 1, 2), []int{5}, []int{B + 1}, []int{1})
-	if !c.Quick() {
+	add("3x1-mixed", lib.Pick(c, 2, 2), []int{5}, []int{B + 1}, []int{1})
+	if c.Quick() {
+		scs[len(scs)-1].delay = true // 3 sessions: delay bounding in the quick tier
+		scs[len(scs)-2].delay = true // 2 sessions x 2 requests: likewise
+		scs[len(scs)-2].bound = 2
+	} else {
+		scs[len(scs)-1].bound = 1
 		add("2x1-huge", 2, []int{70000}, []int{7})
 		add("3x2-small", 1, []int{1, 2}, []int{3, 4}, []int{5, 6})
 	}
 	var out []*sched.Scenario
 	for _, s := range scs {
 		s := s
-		out = append(out, &sched.Scenario{Name: s.name, MaxBound: s.bound, MaxSteps: 40000,
+		fc := 0
+		if s.delay {
+			fc = 1
+		}
+		out = append(out, &sched.Scenario{Name: s.name, MaxBound: s.bound, MaxSteps: 40000, FreeCost: fc,
 			New: func() sched.Execution { return &muxExec{sc: s} }})
 	}
 	return out
